@@ -24,6 +24,19 @@ macro_rules! check_object {
             let stored = String::from_utf8_lossy(&buf[..n]).into_owned();
             let tail_ok = buf[n..].iter().all(|&b| b == SENT);
             let disp = format!("{}", h);
+            // the formatting trait under format specifications (width, fill, alignment, precision, sign, #, 0):
+            // the text is the contract, so every one of them must give the same text
+            let disp_flags: Vec<(&'static str, String)> = vec![
+                ("{:.12}", format!("{:.12}", h)),
+                ("{:.0}", format!("{:.0}", h)),
+                ("{:80}", format!("{:80}", h)),
+                ("{:*>160}", format!("{:*>160}", h)),
+                ("{:^7}", format!("{:^7}", h)),
+                ("{:<200.3}", format!("{:<200.3}", h)),
+                ("{:#}", format!("{:#}", h)),
+                ("{:+}", format!("{:+}", h)),
+                ("{:0300}", format!("{:0300}", h)),
+            ];
             #[cfg(feature = "ffstd")]
             let (ts, sf) = (Some(h.to_string()), Some(String::from(h)));
             #[cfg(not(feature = "ffstd"))]
@@ -34,15 +47,18 @@ macro_rules! check_object {
                 Ok(b) => *b == h && b.full_eq(&h) && b.is_valid(),
                 Err(_) => false,
             };
-            (stored, tail_ok, disp, ts, sf, len_in_str, back_ok, h)
+            (stored, tail_ok, disp, disp_flags, ts, sf, len_in_str, back_ok, h)
         });
         $l.eval(1);
         match r {
             Err(p) => $l.violation("totality", sig("panic"), format!("formatting a valid {} ({}) panicked: {}", name, want, p)),
-            Ok((stored, tail_ok, disp, ts, sf, len_in_str, back_ok, h)) => {
+            Ok((stored, tail_ok, disp, disp_flags, ts, sf, len_in_str, back_ok, h)) => {
                 $l.check(stored == want, "text", || (sig("store"), format!("{}: store_into_bytes gives {:?} but the object holds {:?}", name, stored, want)));
                 $l.check(tail_ok, "no-overwrite", || (sig("tail"), format!("{}: store_into_bytes wrote past the reported length for {}", name, want)));
                 $l.check(disp == want, "text", || (sig("display"), format!("{}: Display gives {:?} expected {:?}", name, disp, want)));
+                for (spec, got) in &disp_flags {
+                    $l.check(*got == want, "text", || (sig("display-flags"), format!("{}: Display under {} gives {:?} expected {:?}", name, spec, got, want)));
+                }
                 if let Some(ts) = ts {
                     $l.check(ts == want, "text", || (sig("to_string"), format!("{}: to_string gives {:?} expected {:?}", name, ts, want)));
                 }
